@@ -30,7 +30,10 @@
                                        an honest node signs, for duty d, only inside transport.Broadcast
                                        (createMsg/signMsg) on behalf of its qbft.Run for d, and Net.v
                                        appends every such broadcast to [sent].
-   RESIDUAL GAP (not proved here): (a) honest_signs_only_broadcasts itself -- that the honest
+   UPDATE: (a) is now DERIVED in Flow/WireCompose.v from the composed system (every honest member runs the
+   transport model Flow/WireSend.v on top of its qbft.Run): accepted_is_deliverable_composed; (b) is checked
+   by the harness zz_verif_send_test.go (pointer identity through the real ProcessReceives).
+   RESIDUAL GAP of THIS file taken alone: (a) honest_signs_only_broadcasts itself -- that the honest
    wrapper calls signMsg only from transport.Broadcast with the fields qbft.Run passed, and that the
    list l in hand contains all honest broadcasts made so far, is a statement about the sending side
    (createMsg) and about the identification of Net.v's [sent] with real time; it is exercised by the
